@@ -783,6 +783,20 @@ example : pNormPow 2 ([[(1, 0), (1, 0), (1, 0)], [(2, 0)]] : List (List (ℝ × 
   · simp [pNormPow, pNormPowGen, accumulate, segTerms, segs, segTerm]
   · simp [supNormExact, pyMax, absA]; norm_num
 
+/-- non-vacuity of `pnorm_triangle_wf` / `pnorm_real_triangle_wf`: `f` = the depth of a zero-length bar (the zero
+    function, not strictly increasing), `g = h` = a tent: all three are in the class and `h = f + g` pointwise -/
+example : let f : List (List (ℝ × ℝ)) := [[(1, 0), (1, 0), (1, 0)]]
+    let g : List (List (ℝ × ℝ)) := [[(0, 0), (1, 1), (2, 0)]]
+    ∀ k t, evalDepth g k t = evalDepth f k t + evalDepth g k t := by
+  intro f g k t
+  have hf : evalDepth f k t = 0 := by
+    match k with
+    | 0 =>
+      simp only [f, evalDepth, List.getElem?_cons_zero, evalPL]
+      split_ifs <;> simp
+    | k + 1 => simp [f, evalDepth]
+  rw [hf, zero_add]
+
 /-! ### stability of the landscape under a partial matching (the bottleneck clause) -/
 
 open PersimVerif.Spec in
